@@ -878,7 +878,8 @@ impl Mon {
     // ------------------------------------------------------------------ C17
     fn c17(&mut self, w: &World, v: &IxView, info: &IxInfo) {
         let _ = (w, v);
-        if !matches!(info.kind, Kind::Deposit | Kind::Withdraw | Kind::Borrow) {
+        let venue_dep = matches!(info.kind, Kind::KaminoDeposit | Kind::SolendDeposit | Kind::DriftDeposit);
+        if !matches!(info.kind, Kind::Deposit | Kind::Withdraw | Kind::Borrow) && !venue_dep {
             return;
         }
         let (bk, pre, post) = match info.banks.first() {
@@ -889,6 +890,23 @@ impl Mon {
         self.r.eval();
         let lim_class = |l: u64| if l == 0 { 0 } else if l == 1 { 1 } else if l == u64::MAX { 3 } else { 2 };
         match info.kind {
+            // a deposit through a pass-through instruction is a deposit like any other: the cap holds
+            Kind::KaminoDeposit | Kind::SolendDeposit | Kind::DriftDeposit => {
+                let lim = post.config.deposit_limit;
+                let grew = qq.tas > qp.tas;
+                self.r.distinct(&(info.kind.name(), lim_class(lim), grew));
+                if lim != u64::MAX && grew {
+                    self.r.count("C17.venue_deposits_under_an_active_cap");
+                    // a Drift bank books scaled balances of nine decimals while its limit is written
+                    // in the mint's native units: the limit in booking units
+                    let lim_units = if info.kind == Kind::DriftDeposit { ru(lim as u128) * ru(10u128.pow(9)) / ru(10u128.pow(post.mint_decimals as u32)) } else { ru(lim as u128) };
+                    let margin = lim_units - &qq.d;
+                    self.r.min("C17.min_venue_deposit_headroom_units", to_f64(&margin));
+                    if !margin.is_positive() {
+                        self.r.violate("C17", &format!("C17/{}/deposits-at-or-above-limit", info.kind.name()), format!("bank {}: deposits {} limit {}", bk, show(&qq.d), lim));
+                    }
+                }
+            }
             Kind::Deposit => {
                 let lim = post.config.deposit_limit;
                 let grew = qq.tas > qp.tas;
